@@ -417,7 +417,7 @@ class First""", """                rule.trigger(implication)
 
 
 class First"""), "A-sem/General.activate/selection")
-mutant("c01-append-to-first-conclusion-variable", ["C01", "C07"], (R, "                    proposition.variable.fuzzy.terms.append(activated_term)", "                    self.conclusions[0].variable.fuzzy.terms.append(activated_term)"), "P5/Consequent.modify/target")
+mutant("c01-append-to-first-conclusion-variable", ["C01", "C07"], (R, "                    proposition.variable.fuzzy.terms.append(activated_term)", "                    self.conclusions[0].variable.fuzzy.terms.append(activated_term)"), "Consequent.modify/terms")
 mutant("c01-fold-seed-one", "C01", (T, """        y = scalar(0.0)
         for term in self.terms:
             y = self.aggregation.compute(y, term.membership(x))""", """        y = scalar(1.0)
@@ -457,8 +457,8 @@ mutant("c07-second-append", ["C07", "C01"], (R, """                    propositi
                 else:""", """                    proposition.variable.fuzzy.terms.append(activated_term)
                     if proposition.hedges:
                         proposition.variable.fuzzy.terms.append(activated_term)
-                else:"""), "P5/Consequent.modify/one-per-enabled-conclusion")
-mutant("c07-enabled-guard-dropped", ["C07", "C01"], (R, "            if proposition.variable.enabled:\n                for hedge in reversed(proposition.hedges):", "            if True:\n                for hedge in reversed(proposition.hedges):"), "P5/Consequent.modify/one-per-enabled-conclusion")
+                else:"""), "Consequent.modify/terms")
+mutant("c07-enabled-guard-dropped", ["C07", "C01"], (R, "            if proposition.variable.enabled:\n                for hedge in reversed(proposition.hedges):", "            if True:\n                for hedge in reversed(proposition.hedges):"), "Consequent.modify/terms")
 mutant("c07-posinf-zero", "C07", (T, "np.nan_to_num(value, nan=0.0, neginf=0.0, posinf=1.0)", "np.nan_to_num(value, nan=0.0, neginf=0.0, posinf=0.0)"), "T2/Activated.degree/posinf")
 mutant("c07-neginf-default", "C07", (T, "np.nan_to_num(value, nan=0.0, neginf=0.0, posinf=1.0)", "np.nan_to_num(value, nan=0.0, posinf=1.0)"), "T2/Activated.degree/neginf")
 mutant("c07-constructor-bypasses-setter", "C07", (T, "        self.term = term\n        self.degree = degree\n        self.implication = implication", "        self.term = term\n        self._degree = degree\n        self.implication = implication"), "T2/Activated.__init__")
@@ -467,7 +467,7 @@ mutant("c07-rule-disabled-still-modifies", ["C07", "C01"], (R, """        if sel
             self.triggered = array(self.activation_degree > 0.0)""", """        self.consequent.modify(self.activation_degree, implication)
         if self.enabled:
             self.triggered = array(self.activation_degree > 0.0)"""), "P4/Rule.trigger/enabled")
-mutant("c07-consequent-hedges-forward", "C07", (R, "                for hedge in reversed(proposition.hedges):\n                    activation_degree = hedge.hedge(activation_degree)", "                for hedge in proposition.hedges:\n                    activation_degree = hedge.hedge(activation_degree)"), "H1/Consequent.modify")
+mutant("c07-consequent-hedges-forward", "C07", (R, "                for hedge in reversed(proposition.hedges):\n                    activation_degree = hedge.hedge(activation_degree)", "                for hedge in proposition.hedges:\n                    activation_degree = hedge.hedge(activation_degree)"), "M-sem/Consequent.modify/degree")
 MODIFY_LOOP = """            if proposition.variable.enabled:
                 for hedge in reversed(proposition.hedges):
                     activation_degree = hedge.hedge(activation_degree)
@@ -491,7 +491,9 @@ MODIFY_FIXED = """            if proposition.variable.enabled:
 """
 # the repaired variant must be silent on L1 (it removes the known finding: the baseline key disappears, nothing new appears)
 equivalent("c07-eq-repaired-local-degree", "C07", (R, MODIFY_LOOP, MODIFY_FIXED))
-mutant("c07-carried-through-other-name", "C07", [(R, "        for proposition in self.conclusions:\n            if not proposition.variable:", "        last = None\n        for proposition in self.conclusions:\n            if not proposition.variable:"), (R, MODIFY_LOOP, MODIFY_FIXED.replace("                degree = activation_degree\n", "                degree = last if last is not None else activation_degree\n").replace("                activated_term = Activated(proposition.term, degree, implication)\n", "                activated_term = Activated(proposition.term, degree, implication)\n                last = degree\n"))], "L1/Consequent.modify/")
+# behaves exactly as the pinned tree does (the degree of the previous conclusion, hedges included, is what the next one starts from): the same
+# failing input as the known finding L1, so it is not a new violation - a semantic decision cannot and should not tell the two spellings apart
+equivalent("c07-carried-through-other-name", "C07", [(R, "        for proposition in self.conclusions:\n            if not proposition.variable:", "        last = None\n        for proposition in self.conclusions:\n            if not proposition.variable:"), (R, MODIFY_LOOP, MODIFY_FIXED.replace("                degree = activation_degree\n", "                degree = last if last is not None else activation_degree\n").replace("                activated_term = Activated(proposition.term, degree, implication)\n", "                activated_term = Activated(proposition.term, degree, implication)\n                last = degree\n"))])
 equivalent("c01-eq-process-index-loops", "C01", (E, """        for block in self.rule_blocks:
             if block.enabled:
                 block.activate()""", """        for rb in list(self.rule_blocks):
@@ -1393,7 +1395,7 @@ mutant("seed-c07-break-on-disabled", ["C07", "C01"], (R, """            if propo
                 for hedge in reversed(proposition.hedges):""", """            if not proposition.variable.enabled:
                 break
             if proposition.variable.enabled:
-                for hedge in reversed(proposition.hedges):"""), "P5/Consequent.modify/all-conclusions")
+                for hedge in reversed(proposition.hedges):"""), "Consequent.modify/terms")
 mutant("seed-c10-lru-cache", ["C10", "C13", "C01"], [(D, "import enum\nimport typing\n", "import enum\nimport functools\nimport typing\n"), (D, "    @classmethod\n    def infer_type(", "    @classmethod\n    @functools.lru_cache(maxsize=None)\n    def infer_type(")], "H8/")
 mutant("seed-c12-shift-by-one", ["C12", "C02"], (V, """            with np.nditer(value, op_flags=[["readwrite"]]) as iterator:
                 previous_value = self.previous_value
